@@ -59,6 +59,10 @@ const MAX_MESSAGE_SIZE: usize = 64 * 1024;
 /// Number of closest nodes to return in DHT lookups (Kademlia K parameter)
 const DHT_CLOSEST_NODES_COUNT: usize = 8;
 
+/// Most entries a lookup accepts from a single find-node reply (the largest list
+/// an honest peer sends is `DHT_CLOSEST_NODES_COUNT`; the core engine's cap is 20).
+const MAX_NODES_PER_REPLY: usize = 20;
+
 /// Request timeout for DHT message handlers (30 seconds)
 /// Prevents long-running handlers from starving the semaphore permit pool
 /// SEC-001: DoS mitigation via timeout enforcement on concurrent operations
@@ -1411,7 +1415,9 @@ impl DhtNetworkManager {
                         if let Some(queried_node) = batch.iter().find(|n| n.peer_id == peer_id) {
                             best_nodes.push(queried_node.clone());
                         }
-                        for mut node in nodes {
+                        // One reply may contribute at most the protocol cap of
+                        // entries; an over-long list is cut, not trusted.
+                        for mut node in nodes.into_iter().take(MAX_NODES_PER_REPLY) {
                             Self::ensure_cached_dht_key(&mut node);
                             if queried_nodes.contains(&node.peer_id)
                                 || queued_peer_ids.contains(&node.peer_id)
@@ -1420,12 +1426,34 @@ impl DhtNetworkManager {
                                 continue;
                             }
                             if candidates.len() >= MAX_CANDIDATE_NODES {
-                                trace!(
-                                    "[NETWORK] Candidate queue at capacity ({}), dropping {}",
-                                    MAX_CANDIDATE_NODES,
-                                    &node.peer_id[..8.min(node.peer_id.len())]
-                                );
-                                continue;
+                                // Keep the closest candidates: make room by dropping
+                                // the farthest one if the newcomer is closer.
+                                let farthest = candidates
+                                    .iter()
+                                    .enumerate()
+                                    .max_by(|a, b| Self::compare_node_distance(a.1, b.1, key))
+                                    .map(|(i, _)| i);
+                                match farthest {
+                                    Some(i)
+                                        if Self::compare_node_distance(
+                                            &node,
+                                            &candidates[i],
+                                            key,
+                                        ) == std::cmp::Ordering::Less =>
+                                    {
+                                        if let Some(dropped) = candidates.remove(i) {
+                                            queued_peer_ids.remove(&dropped.peer_id);
+                                        }
+                                    }
+                                    _ => {
+                                        trace!(
+                                            "[NETWORK] Candidate queue at capacity ({}), dropping {}",
+                                            MAX_CANDIDATE_NODES,
+                                            &node.peer_id[..8.min(node.peer_id.len())]
+                                        );
+                                        continue;
+                                    }
+                                }
                             }
                             queued_peer_ids.insert(node.peer_id.clone());
                             candidates.push_back(node);
